@@ -169,9 +169,9 @@ func OrInt64(a *int64, m int64) int64      { pt("OrInt64"); return atomic.OrInt6
 func OrUint64(a *uint64, m uint64) uint64  { pt("OrUint64"); return atomic.OrUint64(a, m) }
 
 // Peek methods read the value WITHOUT a scheduling point (for harness monitors only).
-func (x *Int32) Peek() int32     { return x.v.Load() }
-func (x *Int64) Peek() int64     { return x.v.Load() }
-func (x *Uint32) Peek() uint32   { return x.v.Load() }
-func (x *Uint64) Peek() uint64   { return x.v.Load() }
-func (x *Bool) Peek() bool       { return x.v.Load() }
-func (x *Pointer[T]) Peek() *T   { return x.v.Load() }
+func (x *Int32) Peek() int32   { return x.v.Load() }
+func (x *Int64) Peek() int64   { return x.v.Load() }
+func (x *Uint32) Peek() uint32 { return x.v.Load() }
+func (x *Uint64) Peek() uint64 { return x.v.Load() }
+func (x *Bool) Peek() bool     { return x.v.Load() }
+func (x *Pointer[T]) Peek() *T { return x.v.Load() }
